@@ -73,6 +73,9 @@ func checkC08(c *Ctx) {
 	c.Rule("C08.3", "accessor => type: every type-specific accessor that may accept in a cell accepts only cells whose Type() is one fixed type (its type), so at most one type's accessors accept a message; derived views (accessors built on another accessor of the same receiver, and GetChannel) exempt", 10)
 	c.Rule("C08.4", "FF is meta in files: for smf.Message cells with leading FF the type is decided by the meta table (never the wire Reset), and Type() of FF-cells never equals a wire type", 1)
 
+	c.Rule("C08.5", "playability follows the classification: every FF-leading file message is reported not playable, every channel message playable, over 256 first bytes x length classes (= C12.2)", 3)
+	c.include(checkC12, map[string]string{"C12.2": "C08.5"})
+
 	maxLen := 9 // length classes 0..8 and ">=9" (class 9); the thorough tier also runs exact lengths 9..16 before the open class
 	extraLens := []int{}
 	if c.Tier == "thorough" {
